@@ -19,8 +19,10 @@ REQUIRED_THEOREMS = [
     "Acn.C01.run_terminates_any_queue", "Acn.C01.run_terminates_real_heap", "Acn.C01.runQ_canonical_eq_run",
     "Acn.Sim.body_pilots", "Acn.Sim.run_pilots", "Acn.Sim.run_applied_eq_spec",
     "Acn.C01.run_terminates_any_network", "Acn.C01.history_sorted_complete_any_network",
+    "Acn.C01.history_sorted_complete_any_network_H",
     "Acn.C01.bodyG_chargingNet_eq_body", "Acn.C01.cfg1_validQ", "Acn.Sim.body_core_any", "Acn.C01.sim_runQ_heap_C01",
-    "Acn.Sim.step_noop_of_resolve", "Acn.Sim.step_typeError", "Acn.Sim.stepPass_sets_resolve", "Acn.Sim.steps_stall",
+    "Acn.Sim.step_runs_first_pass", "Acn.Sim.step_first_pass_error", "Acn.Sim.stepPass_applies_schedule", "Acn.Sim.stepPass_core",
+    "Acn.Sim.stepUnfixed_noop_of_resolve", "Acn.Sim.stepUnfixed_typeError", "Acn.Sim.stepPass_sets_resolve", "Acn.Sim.stepsUnfixed_stall",
 ]
 BUDGET = {"quick": 1200, "thorough": 15000, "search": 8000}
 TRUSTED = ["CPython heapq: heappop returns a <-minimal entry and keeps the rest (which one among equal "
@@ -126,7 +128,7 @@ def generate(rng, n, tier):
             out.append(c)
         elif r == 9:
             out.append(S.gen_case(rng, real_algos=True, max_sessions=12))
-        elif r == 6 and i % 20 == 6:
+        elif r == 6:
             out.append(S.gen_step_case(rng))
         else:
             out.append(S.gen_case(rng))
